@@ -43,4 +43,10 @@ CHECKS = {
         "note": "Trusted: interpreter (bound by conformance replay); (c) is small-scope over the listed alphabets with a rounding tolerance of 64 eps times the sum of absolute terms.",
         "technique": "exhaustive enumeration of velocity-pair x impulse lattices on captured kernels (exact) + deviation-bounded configuration lattice on the real simulators",
     },
+    "C11": {
+        "text": "Exhaustive within bounds: every unit impulse (plus the constant and a dense vector) on every grid shape of the stated range, three spacings and both precisions is solved by the real 2-D/3-D fast-diagonalisation solvers and checked against an independently assembled dense Neumann Laplacian (A u = f - mean f, mean u = 0, real, working precision); a BFS over histories of solves / vector solves / spectral-buffer poisonings checks buffer reuse. The solver is linear, so the impulse basis decides it on each enumerated shape.",
+        "design_ref": "DESIGN.md section 5 C11, sections 4.2 and 4.3",
+        "note": "Trusted: LAPACK; residual tolerance 200 eps n_max^2 ||f||. Large shapes (> 160 cells) use a strided subset of impulses (reported in the evidence).",
+        "technique": "basis enumeration of the full solution operator vs dense reference matrix + explicit-state BFS over solver histories",
+    },
 }
